@@ -238,6 +238,7 @@ type oddConn struct {
 	net.Conn
 	mu       sync.Mutex
 	noDL     bool
+	errDL    bool   // deadlines take effect on the transport, but the call reports an error all the same
 	pre      []byte // bytes served before the underlying connection is consulted
 	armed    bool   // an expired deadline is set
 	closed   bool
@@ -274,8 +275,12 @@ func (o *oddConn) SetDeadline(t time.Time) error {
 		return errors.New("deadlines not supported")
 	}
 	o.armed = !t.IsZero()
+	errDL := o.errDL
 	o.mu.Unlock()
-	return o.Conn.SetDeadline(t)
+	if err := o.Conn.SetDeadline(t); err != nil || !errDL {
+		return err
+	}
+	return errors.New("deadline set; write half not supported")
 }
 
 func TestWatchTransports(t *testing.T) {
@@ -291,7 +296,7 @@ func TestWatchTransports(t *testing.T) {
 	n := 0
 	for _, procs := range []int{1, 4, 16} {
 		old := runtime.GOMAXPROCS(procs)
-		for _, variant := range []string{"nodl", "buffered"} {
+		for _, variant := range []string{"nodl", "buffered", "errdl"} {
 			for _, cancelAt := range []int{-2, 0, 1, 2} { // -2: the context has ended before NewConn is called
 				for _, helloAt := range []int{0, 1} {
 					if variant == "buffered" && helloAt != 0 {
@@ -310,7 +315,7 @@ func TestWatchTransports(t *testing.T) {
 								cl, sv := net.Pipe()
 								defer cl.Close()
 								defer sv.Close()
-								tr := &oddConn{Conn: sv, noDL: variant == "nodl"}
+								tr := &oddConn{Conn: sv, noDL: variant == "nodl", errDL: variant == "errdl"}
 								if variant == "buffered" {
 									tr.pre = bytes.Clone(hello)
 								}
@@ -500,5 +505,45 @@ func TestWatchSequences(t *testing.T) {
 		}(g)
 	}
 	wg.Wait()
-	w.Write(Ev{"summary": true, "runs": runs + int(cnt.Load())})
+	// very many connections waiting for their hello at once (a busy listener): each one's context still governs its own NewConn
+	const pending = 1100
+	type pend struct {
+		cancel context.CancelFunc
+		done   chan error
+		cl, sv net.Conn
+	}
+	ps := make([]*pend, pending)
+	for i := range ps {
+		cl, sv := net.Pipe()
+		ctx, cancel := context.WithCancel(context.Background())
+		p := &pend{cancel: cancel, done: make(chan error, 1), cl: cl, sv: sv}
+		ps[i] = p
+		go func() {
+			_, err := ech.NewConn(ctx, sv, ech.WithKeys(keys))
+			p.done <- err
+		}()
+	}
+	time.Sleep(50 * time.Millisecond) // let them all block in their first read
+	late := 0
+	for _, i := range []int{pending - 1, 0, pending / 2, pending - 2} {
+		ps[i].cancel()
+		select {
+		case err := <-ps[i].done:
+			if err == nil {
+				report("many/returned", "NewConn returned a connection although no hello ever arrived")
+			}
+		case <-time.After(watchdogLimit() / 4):
+			late++
+		}
+	}
+	if late > 0 {
+		noteHang()
+		report("many/blocked", fmt.Sprintf("with %d connections waiting for their hello, %d of 4 cancelled NewConn calls were still blocked %v after their context ended", pending, late, watchdogLimit()/4))
+	}
+	for _, p := range ps {
+		p.cancel()
+		p.cl.Close()
+		p.sv.Close()
+	}
+	w.Write(Ev{"summary": true, "runs": runs + int(cnt.Load()) + pending})
 }
